@@ -92,6 +92,23 @@ def core_cases(L):
                         yield c
 
 
+def default_case(rng):
+    """Calls that leave out the keywords whose values are the documented defaults (tolerance 1e-10, max_iter 100, …), on
+    scripts whose moves (2**-30 = 9.3e-10) are above that tolerance: the omitted keyword must mean its default."""
+    n, nE = rng.choice([2, 3]), rng.choice([1, 2])
+    t = rng.randrange(-n, n)
+    seq = [rng.choice(['tiny2', 'tiny2', 'same']) for _ in range(rng.randint(1, 5))] + ['same']
+    o = mkopts(0, rng.choice([100, 100, 3, 8]), 0, rng.choice(['raise', 'ignore']), 'raise', True)
+    vals = [[2.0 ** -7 * (1 + i + p) for p in range(n)] for i in range(nE)]
+    pos = t + n if t < 0 else t
+    case = base_case(n, nE, list(range(nE)), t, o, {pos: seq}, vals=vals, tol=1e-10)
+    case['span_kind'] = rng.choice(sc.SPAN_KINDS)
+    case = sc.vary_implementation_side(case, rng)
+    case['argform'] = 'omit'
+    case['status'], case['iters'] = '-' * n, [-1] * n
+    return case
+
+
 def dtype_case(rng):
     """Models whose series are not float64: `dtype=int` (integer-valued scripts: a pass either repeats the values or
     moves them by 1) and `dtype=float32` (all script values are exactly representable).  Status, iteration count,
@@ -480,6 +497,8 @@ def _work(ctx, rep):
     rng = ctx.sub_rng('random')
     for chunk in range(0, n_random, 5000):
         check_cases(ctx, rep, [random_case(rng) for _ in range(min(5000, n_random - chunk))], 'random')
+    rng = ctx.sub_rng('defaults')
+    check_cases(ctx, rep, [default_case(rng) for _ in range((600 if ctx.tier == 'quick' else 60000) * ctx.scale // ctx.parts)], 'defaults')
     rng = ctx.sub_rng('dtype')
     n_dtype = (1200 if ctx.tier == 'quick' else 150000) * ctx.scale // ctx.parts
     for chunk in range(0, n_dtype, 5000):
